@@ -114,3 +114,10 @@ Theorem C01_structure_refuted :
          = Some (VGrp [[grp "539" [[plain "524" "p"]; [plain "524" "q"]]]])).
 Proof. exact structure_refuted. Qed.
 Print Assumptions C01_structure_refuted.
+
+(* the header tags the model's encoder skips are the ones the code's literal names (regenerated by gen_const.py) *)
+From AF Require Import Lemmas.ConstTieL.
+From AFGen Require Import GenConst.
+Theorem C01_skip_set_is_code : same_set Codec.skip_tags encode_skip_values = true.
+Proof. exact encode_skip_set_is_code. Qed.
+Print Assumptions C01_skip_set_is_code.
